@@ -59,6 +59,7 @@ class C03(C02):
     props_modules = ["Utv.Props.C03"]
     impl = "harness.c03:impl"
     lax_mode = True
+    decl_share = 0.0
     validator_names = LAX_NAMES + ["ge", "le", "length", "unique_items"]
     rule = ("(a) every lax validator on (value, bound) pairs at and around the bounds, applied twice and followed by its strict form; "
             "(b) declared types with 1-2 Lax(...) constraints (plus strict ones) applied to values of the source type and re-parsed; "
